@@ -175,3 +175,15 @@ func (q *DetQueue) FireDue() int {
 
 // Busy reports whether any item is being processed.
 func (q *DetQueue) Busy() bool { return len(q.processing) > 0 }
+
+// PendingRequeues returns the largest number of consecutive failed syncs among the items that are
+// still waiting to be retried (an item that finally succeeded was forgotten and does not count).
+func (q *DetQueue) PendingRequeues() (int, interface{}) {
+	best, which := 0, interface{}(nil)
+	for _, d := range q.delayed {
+		if d.why == "ratelimited" && q.requeues[d.item] > best {
+			best, which = q.requeues[d.item], d.item
+		}
+	}
+	return best, which
+}
